@@ -310,7 +310,7 @@ def encrypt_packet(packet : PHYPayload, appkey=None, appskey=None, nwkskey=None)
             ja_and_mic = bytes(packet)[1:-4] + mic
             c = AES.new(appkey, mode=AES.MODE_ECB)
             enc_ja = c.decrypt(ja_and_mic)
-            enc_phy = b'\x20' + enc_ja
+            enc_phy = bytes(packet)[0:1] + enc_ja
 
             # MIC is ok, return decrypted packet
             return PHYPayload(enc_phy)
